@@ -17,11 +17,11 @@ RULE = (
     "included.  The tree from buildRemainingTreeAsLists (and its treeListToTuple rendering) must contain an unpruned leaf "
     "iff some of the (n-1)! elimination orders ending in that candidate is contradicted by no assertion (brute force), and "
     "every pruned node's tag lists must be exactly the assertions about the candidate eliminated at that node that "
-    "contradict every completion of the node's path (brute force over completions).  The same sets go through buildPrintedResults for every apparent winner (the drawing library replaced by a recorder): every drawn tree's unpruned leaves must be exactly the uncontradicted orders.  Non-trivial = tree with at least one pruned node below the root; distinct = distinct "
+    "contradict every completion of the node's path (brute force over completions).  The same sets go through buildPrintedResults for every apparent winner (the drawing library replaced by a recorder): every drawn tree's unpruned leaves must be exactly the uncontradicted orders.  The sets (all for n=3, of size <= 2 for n=4) also make the round trip real IRV Contest -> audit assertions with confirmation flags -> the audit log's JSON -> parseAssertions, which must give back the same pruning tuples.  Non-trivial = tree with at least one pruned node below the root; distinct = distinct "
     "(n, root, assertion set)"
 )
 ASSUMPTIONS = ["assertion sets are sets: no assertion is listed twice with the same confirmation flag", "NEN items whose eliminated set is everyone else are not well-formed and excluded"]
-REQUIRE_VAC = ["buildPrintedResults_runs", "trees_with_unpruned_leaf", "trees_fully_pruned", "trees_pruned_below_root", "nodes_with_two_tags"]
+REQUIRE_VAC = ["audit_logs_parsed", "buildPrintedResults_runs", "trees_with_unpruned_leaf", "trees_fully_pruned", "trees_pruned_below_root", "nodes_with_two_tags"]
 NAMES = ["1", "12", "11", "2"]  # identifiers that collide when concatenated without a separator ({1,12} v {11,2})
 PLAN = {"quick": {3: 15, 4: 3}, "thorough": {3: 15, 4: 5}}
 
@@ -222,6 +222,50 @@ def judge_printed(n, asns, flags, winner):
     return out
 
 
+def judge_parsed(n, asns, flags, winner=0):
+    """the route an observer takes: the assertions are given to a real IRV Contest (assertion_json), made into audit
+    assertions, marked confirmed / unconfirmed, written as the audit's log (the library's own JSON encoding) and read back
+    by parseAssertions: what comes out must be the same assertions with the same flags, and the trees built from it must
+    satisfy the property"""
+    import json
+    from shangrla.core.Audit import Assertion, Audit, Contest, NpEncoder
+    names = NAMES[:n]
+    js = []
+    for a in asns:
+        if a[0] == "NEB":
+            js.append({"winner": names[a[1]], "loser": names[a[2]], "assertion_type": "WINNER_ONLY", "already_eliminated": ""})
+        else:
+            other = [c for c in range(n) if c != a[1] and c not in a[2]]
+            js.append({"winner": names[a[1]], "loser": names[other[0]], "assertion_type": "IRV_ELIMINATION", "already_eliminated": [names[c] for c in sorted(a[2])]})
+    try:
+        with contextlib.redirect_stdout(io.StringIO()), warnings.catch_warnings():
+            warnings.simplefilter("ignore")
+            con = Contest.from_dict({"id": "1", "name": "1", "risk_limit": 0.05, "cards": 10, "choice_function": Contest.SOCIAL_CHOICE_FUNCTION.IRV, "n_winners": 1,
+                                     "candidates": list(names), "winner": [names[winner]], "assertion_file": "x", "assertion_json": js,
+                                     "audit_type": Audit.AUDIT_TYPE.CARD_COMPARISON, "test": None, "use_style": True})
+            cons = {"1": con}
+            Assertion.make_all_assertions(cons)
+            if len(con.assertions) != len(asns):
+                return [("C20|parsed|assertion-lost-before-log", f"{len(con.assertions)} audit assertions for {len(asns)} assertions")]
+            for asn, fl in zip(con.assertions.values(), flags):
+                asn.proved = fl
+            audit = Audit.from_dict({"seed": 1, "strata": {"s": {"max_cards": 10, "use_style": True, "replacement": False}}})
+            log = json.loads(json.dumps({"Audit": audit, "contests": cons}, cls=NpEncoder))
+            cand_file = {"List": [{"Id": nm, "Description": f"name{nm}"} for nm in names]}
+            (aw, awn), nonw, WO, IRV = V.parseAssertions(log, cand_file)
+    except Exception as e:  # noqa
+        return [(f"C20|parsed|exception|{type(e).__name__}", f"{type(e).__name__}: {str(e)[:100]}")]
+    want_WO, want_IRV = to_lists(asns, flags)
+    out = []
+    if aw != names[winner] or sorted(c for c, _ in nonw) != sorted(nm for nm in names if nm != names[winner]):
+        out.append(("C20|parsed|candidates", f"apparent winner {aw}, non-winners {nonw}"))
+    if [(l, w, bool(p)) for l, w, p in WO] != [(l, w, bool(p)) for l, w, p in want_WO]:
+        out.append(("C20|parsed|NEB-list", f"parseAssertions gives not-eliminated-before tuples {WO}, the log holds {want_WO}"))
+    if [(c, set(E), bool(p)) for c, E, p in IRV] != [(c, set(E), bool(p)) for c, E, p in want_IRV]:
+        out.append(("C20|parsed|NEN-list", f"parseAssertions gives not-eliminated-next tuples {IRV}, the log holds {want_IRV}"))
+    return out
+
+
 def flags_for(k, mode):
     return [False] * k if mode == 0 else [(i % 2 == 0) for i in range(k)]
 
@@ -248,6 +292,12 @@ def run_shard(sh, rec):
             if mode == 1 and not asns:
                 continue
             fl = flags_for(len(asns), mode)
+            if asns and (n == 3 or len(asns) <= 2):
+                pv = judge_parsed(n, asns, fl, winner=idx[0] % n)
+                rec.evals()
+                rec.vac("audit_logs_parsed")
+                for key, what in pv:
+                    rec.violate(key, what, {"parsed": True, "n": n, "winner": idx[0] % n, "assertions": [[a[0], a[1], a[2] if a[0] == "NEB" else sorted(a[2])] for a in asns], "flags": fl})
             for root, int_ids in [(r, False) for r in range(n)] + ([(r, True) for r in range(n)] if (n == 3 and mode == 0) else []):
                 v, info = judge(n, root, asns, fl, int_ids)
                 rec.evals()
@@ -293,6 +343,8 @@ def run_case(case):
     if case.get("wide"):
         return judge_wide(case["n"], case["k"], "root")
     asns = [(a[0], a[1], a[2]) if a[0] == "NEB" else (a[0], a[1], frozenset(a[2])) for a in case["assertions"]]
+    if case.get("parsed"):
+        return judge_parsed(case["n"], asns, case["flags"], case["winner"])
     if case.get("printed"):
         return judge_printed(case["n"], asns, case["flags"], case["winner"])
     return judge(case["n"], case["root"], asns, case["flags"], case.get("int_ids", False))[0]
